@@ -9,11 +9,11 @@ MANIFEST = dict(
     category="other",
     text="Per listed NSIDE (powers of two or not, up to 2^29), for EVERY position of the projected domain -- the equatorial band and the polar gores, including positions numerically on or just outside a gore edge (what proj returns on the meridians k*pi/2) and x + 8 rounded to 8: ring hash < 12*nside^2, in-cell offsets dl, dh, dx, dy in [0,1], and no debug assertion, overflow or underflow can fail (this is the obligation that refuted the original code: finding D16, now repaired in /repo and re-checked on every run); out-of-range cell numbers must panic; the repaired polar-cap ring index used by ring::center_of_projected_cell has its contract (shared with C10). Bounded to the listed NSIDE values. That the returned cell contains the position, hash(center(h)) == h, ring ordering/sizes and sph_coo inversion for arbitrary NSIDE are NOT decided by a contract here (checked only natively while repairing D16).",
     note="Bounded to listed NSIDE (quick: 1,2,3,5,8,1000,2^29-1,2^29); proj replaced by its contract (a point of the net, C17).",
-    technique="Kani per-NSIDE full-domain harnesses over IEEE-754 doubles (CBMC) on the real ring::hash with proj as a contract stub",
+    technique="Verus (z3) contracts on the extracted region-boundary functions for every NSIDE; Kani per-NSIDE full-domain harnesses over IEEE-754 doubles (CBMC) on the real ring::hash with proj as a contract stub",
 )
-EXPLANATION = "Each unit is complete over positions for its NSIDE and region (band / caps); the quantifier over NSIDE is bounded to the list."
+EXPLANATION = "Unit ringn_bounds_verus is unbounded in NSIDE (region-boundary arithmetic only). Each Kani unit is complete over positions for its NSIDE and region (band / caps); the quantifier over NSIDE is bounded to the list."
 ASSUMPTIONS = ["proj contract: a point of the HEALPix net, possibly numerically just outside a gore edge (C17)", "containment of the position in the returned cell, centre round trip, ordering: NOT decided"]
-TRUSTED_BASE = ["Kani 0.68 / CBMC 6.11 IEEE-754"]
+TRUSTED_BASE = ["Verus 0.2026.09.13 + z3 (unit ringn_bounds_verus)", "Kani 0.68 / CBMC 6.11 IEEE-754"]
 def units():
     us = []
     F = ["ring::hash", "ring::hash_with_dldh", "ring::dldh_to_dxdy", "ring::first_hash_in_eqr", "ring::triangular_number_x4", "ring::n_hash", "(contract stub) proj"]
@@ -27,6 +27,14 @@ def units():
         us.append(Unit("ringn_contains_n%d" % n, P + "ringn_contains_n%d" % n, F + ["ring::center_of_projected_cell", "ring::polar_cap_ring_index"], "nside %d: the centre of the returned cell is within 1/nside (L1, projection plane) of the position -- centre taken from the definition of the RING scheme, away from the glued gore edges; time-bounded refutation search" % n, kind="search", timeout=300, extra=dict(no_native=True)))
     for n in (1, 2, 3, 5):
         us.append(Unit("ringn_center_def_n%d" % n, P + "ringn_center_def_n%d" % n, ["ring::center_of_projected_cell", "ring::polar_cap_ring_index"], "nside %d, every cell: the crate's projected centre == the definition of the RING scheme (ring sizes, equal spacing from lon = 0, ring ordinate); search" % n, kind="search", timeout=300))
+    VF = ["ring::n_hash", "ring::n_isolatitude_rings", "ring::triangular_number_x4", "ring::triangular_number_x4_u32", "ring::first_hash_in_eqr",
+          "ring::first_hash_on_npc_eqr_transition", "ring::first_hash_on_eqr_spc_transition", "ring::first_hash_in_spc"]
+    us.append(Unit("ringn_bounds_verus", "contracts/verus_ringn.py", VF,
+                   "EVERY nside in 1..=2^29 (no list): the region-boundary functions equal their closed forms (12 n^2, 4n-1, 2k(k+1), 2n(n+1), 2(n-1)n, 2n(5n-1), 2n(5n+1)) without overflow; "
+                   "they are the ring starts ring_first(n, n-1 | n | 3n-1 | 3n) of the RING scheme, strictly ordered inside [0, 12 n^2], caps of equal size, 4n cells per band ring",
+                   engine="verus", level="P", timeout=600, extra=dict(spec="verus_ringn", rlimit=60), bound="none (all nside up to nside_max = 2^29)"))
+    us.append(Unit("ringn_bounds_verus_canary", "contracts/verus_ringn.py", VF, "vacuity guard: a false claim under the same precondition must fail",
+                   kind="canary", engine="verus", timeout=600, extra=dict(spec="verus_ringn", rlimit=60)))
     us.append(Unit("pcri_contract_lt_2p10", "nested::verif_ring::pcri_contract_lt_2p10", ["ring::polar_cap_ring_index"], "contract of the repaired polar-cap ring index used by ring::center_of_projected_cell: 2r(r+1) <= h < 2(r+1)(r+2), h < 2^10", level="B", bound="h < 2^10"))
     us.append(Unit("pcri_contract_2p53_2p62", "nested::verif_ring::pcri_contract_2p53_2p62", ["ring::polar_cap_ring_index"], "same, 2^53 <= h < 2^62 (huge NSIDE): time-bounded refutation search", kind="search", timeout=240))
     return us
